@@ -92,11 +92,15 @@ PEq(v, w) == IF v.t \in NumKinds /\ w.t \in NumKinds THEN v.v = w.v ELSE v = w
 (* C05 — records stay in normal form                                       *)
 RecOps == {"NewRec", "AddAttrs", "SetTime", "AddType", "AddRecord"}
 
+(* the membership compatibility path the property does not claim: several      *)
+(* prov:entity values on one membership record                                  *)
+Unclaimed(rec, x) == rec.k = "membership" /\ x.a = ProvU("entity")
+
 (* every PROV formal attribute of every record holds at most one value *)
 C05_single(step) ==
   Cl("C05_single", AllRecs(step.post) # {},
-     \A rec \in AllRecs(step.post) : \A au \in {x.a : x \in FormalPart(rec)} :
-        Cardinality(AttrVals(rec, au)) <= 1)
+     \A rec \in AllRecs(step.post) : \A x \in FormalPart(rec) :
+        Unclaimed(rec, x) \/ Cardinality(AttrVals(rec, x.a)) <= 1)
 
 (* reference-valued formals hold qualified names, time-valued ones datetimes *)
 C05_typed(step) ==
@@ -118,9 +122,6 @@ SuppliedTo(step) ==
     [] OTHER -> {}
 TargetPre(step)  == step.pre.con[step.op.r.c].recs[step.op.r.i]
 TargetPost(step) == step.post.con[step.op.r.c].recs[step.op.r.i]
-(* the membership compatibility path the property does not claim: several      *)
-(* prov:entity values on one membership record                                  *)
-Unclaimed(rec, x) == rec.k = "membership" /\ x.a = ProvU("entity")
 
 (* a second, different value of a formal attribute is refused and the stored one stays *)
 C05_refuse(step) ==
@@ -137,7 +138,7 @@ C05_refuse(step) ==
 C05_idem(step) ==
   LET pre == TargetPre(step)
       sup == SuppliedTo(step)
-      allsame == sup # {} /\ \A x \in sup : \E w \in AttrVals(pre, x.a) : PEq(w, x.v)
+      allsame == sup # {} /\ \A x \in sup : ~Unclaimed(pre, x) /\ \E w \in AttrVals(pre, x.a) : PEq(w, x.v)
   IN Cl("C05_idem", step.op.op \in {"AddAttrs", "SetTime"} /\ allsame /\
                     Cardinality(sup) = (IF step.op.op = "AddAttrs" THEN Len(step.op.pairs) ELSE Cardinality(sup)),
         step.exc = "none" /\ AttrSet(TargetPost(step)) = AttrSet(pre))
@@ -409,9 +410,18 @@ Owned(step) ==
         [] a.op = "Update" -> withBundles(a.h)
         [] a.op = "AddBundle" -> {a.h} \cup (IF pre[a.arg].kind = "bun" THEN {a.arg} ELSE {})
         [] OTHER -> {})
+(* a copied record still belongs to its bundle: it shows that bundle's namespaces, *)
+(* and giving it attributes resolves names there                                   *)
+IsLoose(obs, h) == obs.con[h].kind = "loose"
+NsOwned(step) ==
+  LET a == step.op IN
+  IF a.op \in {"AddAttrs", "SetTime", "AddType"} /\ IsLoose(step.pre, a.r.c) THEN {step.parents[a.r.c]} ELSE {}
 C12_frame(step) ==
   Cl("C12_frame", TRUE,
-     \A h \in DOMAIN step.pre.con \ Owned(step) : SameCon(step, h))
+     \A h \in DOMAIN step.pre.con \ Owned(step) :
+        /\ h \in DOMAIN step.post.con
+        /\ step.post.con[h] = step.pre.con[h]
+        /\ (IsLoose(step.pre, h) \/ h \in NsOwned(step) \/ step.post.ns[h] = step.pre.ns[h]))
 C12Clauses(step) == IF "con" \in DOMAIN step.pre THEN {C12_frame(step)} ELSE {}
 
 -----------------------------------------------------------------------------
